@@ -101,6 +101,7 @@ package graphql
 
 //@ func conn.handleSubscribe
 //@   requires c != nil && in != nil && c.subscriptions != nil
+//@   call PrepareQuery assert arg1 == any(c.schema.Query) && arg2 == query.SelectionSet                    // C14: a subscription is validated against the type it is executed against
 //@   keeps conn, inEnvelope, map[string]*reactive.Rerunner
 //@   ghost nSubscribe int
 //@   ghost nNew int
@@ -118,6 +119,7 @@ package graphql
 
 //@ func conn.handleMutate
 //@   requires c != nil && in != nil && c.subscriptions != nil
+//@   call PrepareQuery assert arg1 == any(c.mutationSchema.Mutation) && arg2 == query.SelectionSet       // C14: a mutation is validated against the type it is executed against
 //@   keeps conn, inEnvelope, map[string]*reactive.Rerunner
 //@   ghost nNew int
 //@   entry ghost nNew = 0
@@ -642,3 +644,20 @@ package graphql
 //@   call isCloseError assert arg0 == werr
 //@   call Close ghost nclosed = nclosed + 1
 //@   ensures werr != nil && !closeErr ==> nclosed == 1
+
+// C14: ... and executed against that same type, with the query that was validated
+//@ func conn.handleSubscribe$1$1
+//@   keeps conn, Schema, ComputationInput          // middlewares do not rewrite the connection, the schema or the input they pass on
+//@   call Execute assert arg2 == c.schema.Query && arg4 == input.ParsedQuery
+//@ func conn.handleMutate$1$1
+//@   keeps conn, Schema, ComputationInput
+//@   call Execute assert arg2 == c.mutationSchema.Mutation && arg4 == query
+
+// C14 (the one-shot HTTP endpoint): the root type is chosen by the kind of the operation, and the query is validated against
+// the very type it is then executed against
+//@ func httpHandler.ServeHTTP
+//@   keeps httpHandler, Schema                 // decoding and parsing the request do not rewrite the handler or its schema
+//@   call PrepareQuery assert arg1 == schema && arg2 == query.SelectionSet && (query.Kind == "mutation" ==> schema == h.schema.Mutation) && (query.Kind != "mutation" ==> schema == h.schema.Query)
+//@ func httpHandler.ServeHTTP$2$1
+//@   keeps httpHandler, Schema, ComputationInput, Query
+//@   call Execute assert arg2 == schema && arg4 == input.ParsedQuery
